@@ -63,10 +63,15 @@ KF5Out(c, o) == ObsVal(o) = NormVal(TextVal(c.vt))
 KF6Trig(c, sst) == IsTextCell(c) /\ Src(c, sst).runsx # Src(c, sst).runs
 KF6Out(c, sst, o) == ObsVal(o) = NormVal(RstVal([rich |-> Src(c, sst).rich, runs |-> Src(c, sst).runsx]))
 
-ValueVerdict(c, sst, o) ==
-  LET want == NormVal(DecodeValue(c, sst)) IN
-  IF IsTextCell(c) /\ Src(c, sst).amb THEN "skip"           \* outer white space without xml:space="preserve": not decided
-  ELSE IF ObsVal(o) = want THEN "ok"
+(* a <t> with outer white space that no xml:space="preserve" protects: XML delivers the white space, Excel drops it, so
+   the outer white space of every run is not judged - everything else is: the extraction delivers such runs trimmed, and
+   the library's runs are compared trimmed (runst); a value replaced by the white space between elements is rejected *)
+TrimObs(o) == [o EXCEPT !.runs = o.runst, !.runsn = o.runstn]
+ValueVerdict(c, sst, o0) ==
+  LET want == NormVal(DecodeValue(c, sst))
+      o    == IF IsTextCell(c) /\ Src(c, sst).amb THEN TrimObs(o0) ELSE o0
+  IN
+  IF ObsVal(o) = want THEN "ok"
   ELSE IF KFOn("C03-KF2") /\ KF2Trig(c, sst) /\ KF2Out(c, sst, want, o) THEN "C03-KF2"
   ELSE IF KFOn("C03-KF3") /\ KF3Trig(c) /\ KF3Out(c, o) THEN "C03-KF3"
   ELSE IF KFOn("C03-KF4") /\ KF4Trig(c) /\ KF4Out(c, o) THEN "C03-KF4"
